@@ -1,5 +1,6 @@
 // nixdrv: executes one op per input line against the real library and prints `line => result`.
 #include "common.hpp"
+#include "store.hpp"
 #include <fstream>
 #include <iostream>
 #include <typeinfo>
@@ -119,6 +120,20 @@ static std::string op_reset(const drv::Args &) {
 static drv::Register reg_reset("reset", op_reset);
 
 int main(int argc, char **argv) {
+    // nixdrv --dump <file>: the reader process of `dumpx` — open read-only, print the canonical dump, close
+    if (argc == 3 && std::string(argv[1]) == "--dump") {
+        H5Eset_auto2(H5E_DEFAULT, nullptr, nullptr);
+        tzset();
+        std::string path = argv[2];
+        std::string r = drv::guarded([&]() {
+            nix::File f = nix::File::open(path, nix::FileMode::ReadOnly);
+            std::string d = drv::store::dumpFile(f);
+            f.close();
+            return d;
+        });
+        std::cout << r; std::cout.flush();
+        return 0;
+    }
     if (argc < 3) { std::cerr << "usage: nixdrv <ops-file|-> <workdir>\n"; return 2; }
     drv::workdir() = argv[2];
     std::istream *in = &std::cin;
